@@ -147,7 +147,11 @@ def cases(tier, mode='func'):
     q = tier == 'quick'
     if mode == 'func':
         if q:
-            return step_cases(tier) + step_cases(tier, ops=('REMOVE', 'REMOVE_IDX'), Ms=[3], filt=chained3)
+            # M=2 cannot replace a chained value (a full table refuses every put): the two single-key M=3 representatives cover
+            # "multi-slot value replaced by a shorter / by another multi-slot value" (exact bytes, length, freed slots)
+            one_chain = lambda L: chained3(L) and L['nkeys'] == 1 and L['used'] == 2
+            return step_cases(tier) + step_cases(tier, ops=('REMOVE', 'REMOVE_IDX'), Ms=[3], filt=chained3) + \
+                [c for c in step_cases(tier, ops=('PUT',), Ms=[3], filt=one_chain, few=True) if '.k0.' in c.cid]
         return step_cases(tier)
     if mode == 'c07':
         if q:
